@@ -57,9 +57,16 @@ def run(chk):
         Ac = np.array([complex(a, b) for a, b in tw["A_c"]])
         scale = max(1.0, float(np.max(np.abs(Ac))) if Ac.size else 1.0)
         eps = 1e-5 if m["scalar"] == "float32" else 1e-11
-        if not np.all(np.abs(A - Ac) <= eps * scale):
+        # degenerate inputs (det J = 0 at a point of a bent cell) give inf / nan in both backends: such entries
+        # must be non-finite in both; all finite entries are compared
+        fin = np.isfinite(A) & np.isfinite(Ac)
+        scale = max(1.0, float(np.max(np.abs(Ac[fin]))) if fin.any() else 1.0)
+        same = np.where(fin, np.abs(np.where(fin, A - Ac, 0)) <= eps * scale, ~np.isfinite(A) & ~np.isfinite(Ac))
+        if not np.all(same):
+            worst = float(np.max(np.abs((A - Ac)[fin]))) if fin.any() else float("nan")
             chk.violation(f"{lab.split('|')[0]}:numba-vs-C:{m['itype']}",
-                          f"{lab} ({m['itype']}): numba kernel and C kernel differ: max |diff| = {float(np.max(np.abs(A - Ac))):.3g}",
+                          f"{lab} ({m['itype']}): numba kernel and C kernel differ: max |diff| over finite entries = {worst:.3g}, "
+                          f"{int(np.sum(~fin))} non-finite entries",
                           {"item": items[r["item"]]})
         nd, cd = tw["nb_descriptor"], tw["c_descriptor"]
         # the numba file knows fewer integral types: compare the common prefix of the offsets
